@@ -778,7 +778,9 @@ func SetValue(dest, v reflect.Value) {
 			// change the v to a Ptr value
 			v = PackPtr(v)
 		}
-	} else {
+	} else if dest.Kind() != reflect.Interface {
+		// (an interface slot takes the object as it was decoded, a pointer to the struct, the way
+		// the elements of an untyped list do)
 		v = UnpackPtrValue(v)
 	}
 
